@@ -314,6 +314,7 @@ _MEMO = [(UC, "def build_unit():", "_parsed = {}\n\ndef build_unit():"),
          (UC, "    elif isinstance(units, str):\n", "    elif isinstance(units, str):\n        if units in _parsed:\n            return _parsed[units]\n"),
          (UC, "        return terms[0]\n", "        _parsed[units] = terms[0]\n        return terms[0]\n")]
 mutant('C09', 'parse memo cleared only on named reset', _MEMO + [(UC, "        nu.reset_units('SI')\n        build_unit()\n", "        nu.reset_units('SI')\n        build_unit()\n        _parsed.clear()\n")], None, None, 'DERIVED-STATE')
+mutant('C09', 'parse memo never cleared', _MEMO, None, None, 'SHARED-STATE')
 benign('C09', 'parse memo cleared on every reset', _MEMO + [(UC, "    # Generate random base working units\n", "    _parsed.clear()\n    # Generate random base working units\n")], None, None)
 
 # ------------------------------------------------------------------ C08
